@@ -354,6 +354,93 @@ impl ChanModel {
     }
 }
 
+
+impl ChanModel {
+    /// Phase-1 form of the holder commitment: the raw transaction and one witness script per output
+    pub fn holder_commitment_phase1(
+        &self,
+        secp: &Secp256k1<All>,
+        n: u64,
+        content: &Content,
+    ) -> (Transaction, Vec<Vec<u8>>) {
+        let holder = self.holder_points.as_ref().expect("holder points");
+        let (tx, keys) = self.build_holder_commitment(secp, n, content);
+        let params = self.channel_parameters();
+        let directed = params.as_holder_broadcastable();
+        let scripts = lightning_signer::util::test_utils::build_tx_scripts(
+            &keys,
+            content.to_holder_sat,
+            content.to_counterparty_sat,
+            &Self::htlcs_oic(content),
+            &directed,
+            &holder.funding_pubkey,
+            &self.cp_points.funding_pubkey,
+        )
+        .expect("scripts");
+        (
+            tx.trust().built_transaction().transaction.clone(),
+            scripts.iter().map(|s| s.as_bytes().to_vec()).collect(),
+        )
+    }
+
+    /// Phase-1 form of the counterparty's commitment n (broadcast by the counterparty) for the
+    /// content given from the holder's point of view, with the counterparty's per-commitment point
+    pub fn counterparty_commitment_phase1(
+        &self,
+        secp: &Secp256k1<All>,
+        n: u64,
+        point: &PublicKey,
+        content: &Content,
+    ) -> (Transaction, Vec<Vec<u8>>) {
+        let holder = self.holder_points.as_ref().expect("holder points");
+        // broadcaster = counterparty
+        let keys = TxCreationKeys::derive_new(
+            secp,
+            point,
+            &self.cp_points.delayed_payment_basepoint,
+            &self.cp_points.htlc_basepoint,
+            &holder.revocation_basepoint,
+            &holder.htlc_basepoint,
+        );
+        let params = self.channel_parameters();
+        let directed = params.as_counterparty_broadcastable();
+        // from the broadcaster's (counterparty's) side: offered = received by us
+        let mut oic = vec![];
+        for h in &content.received {
+            oic.push(HTLCOutputInCommitment { offered: true, amount_msat: h.value_sat * 1000, cltv_expiry: h.cltv_expiry, payment_hash: h.payment_hash, transaction_output_index: None });
+        }
+        for h in &content.offered {
+            oic.push(HTLCOutputInCommitment { offered: false, amount_msat: h.value_sat * 1000, cltv_expiry: h.cltv_expiry, payment_hash: h.payment_hash, transaction_output_index: None });
+        }
+        let mut with_aux: Vec<(HTLCOutputInCommitment, ())> = oic.iter().cloned().map(|h| (h, ())).collect();
+        let tx = CommitmentTransaction::new_with_auxiliary_htlc_data(
+            INITIAL_COMMITMENT_NUMBER - n,
+            content.to_counterparty_sat,
+            content.to_holder_sat,
+            self.cp_points.funding_pubkey,
+            holder.funding_pubkey,
+            keys.clone(),
+            content.feerate_per_kw,
+            &mut with_aux,
+            &directed,
+        );
+        let scripts = lightning_signer::util::test_utils::build_tx_scripts(
+            &keys,
+            content.to_counterparty_sat,
+            content.to_holder_sat,
+            &oic,
+            &directed,
+            &self.cp_points.funding_pubkey,
+            &holder.funding_pubkey,
+        )
+        .expect("scripts");
+        (
+            tx.trust().built_transaction().transaction.clone(),
+            scripts.iter().map(|s| s.as_bytes().to_vec()).collect(),
+        )
+    }
+}
+
 /// A small generator of plausible commitment contents: keeps a running balance and HTLC set
 /// and produces a sequence of contents each differing from the previous by a few HTLC
 /// additions / removals / a feerate change, with the funder paying the BOLT-3 fee.
